@@ -297,9 +297,36 @@ func canonicalDeltaLen(req []byte) int {
 	return len(b)
 }
 
+var (
+	c10Parsers = map[string]*operationparser.Parser{}
+	c10Calls   int
+)
+
 func runParserCase(r *out.Run, g *out.Group, cfg c10cfg, mode, label string, req []byte, originOK func(interface{}) bool) {
 	timeOK := mode != "intake-time-refused"
-	parser := operationparser.New(cfg.p, operationparser.WithAnchorTimeValidator(okTV{timeOK}))
+	// one parser per configuration for the whole run, as in a node; nothing it remembers from earlier calls may
+	// change a verdict, so for every other case the remaining entry points see the request first
+	pkey := fmt.Sprintf("%+v|%v", cfg.p, timeOK) // the configuration's values (several share a name)
+	parser := c10Parsers[pkey]
+	if parser == nil {
+		parser = operationparser.New(cfg.p, operationparser.WithAnchorTimeValidator(okTV{timeOK}))
+		c10Parsers[pkey] = parser
+	}
+	c10Calls++
+	if c10Calls%2 == 0 {
+		func() {
+			defer func() { _ = recover() }()
+			if mode != "batch" {
+				_, _ = parser.ParseOperation("did:sidetree", req, true)
+			}
+			_, _ = parser.GetRevealValue(req)
+			_, _ = parser.GetCommitment(req)
+			if mode == "batch" {
+				_, _ = parser.Parse("did:sidetree", req)
+			}
+		}()
+		r.Count("parser_warmed_by_other_entry_points", mode)
+	}
 	var ty operation.Type
 	var suffix, str string
 	var err error
